@@ -28,7 +28,9 @@ type editCase struct {
 	Added  string        `json:"added"` // kind of the column added to every record
 }
 
-func init() { registerReplay("c04edit", func(c editCase) error { _, _, err := runC04Edit(c); return err }) }
+func init() {
+	registerReplay("c04edit", func(c editCase) error { _, _, err := runC04Edit(c); return err })
+}
 
 func addedSchema(kind string) ref.Schema {
 	switch kind {
